@@ -354,6 +354,9 @@ def _judge(sc, S, table, jobs, state, threads, thread_errors, res, wit):
             return
         res["violations"].append(dict(what=what, key=key, **kw, **w))
 
+    if wit.get("index", 0) % 37 == 0 and not wit.get("points"):
+        res["samples"].append(dict(wit, scenario=sc, schedule=[f"{n}@{l}" for n, l in S.trace][:80], steps=S.step,
+                                   ended="watchdog" if S.uncertain else "quiescent-blocked" if S.stalled else "all-threads-finished"))
     res["counters"]["quiescence_probes"] += S.probes
     if S.uncertain:
         res["counters"]["schedules_ended_by_watchdog"] += 1
